@@ -20,6 +20,12 @@
             at one instant (the simulator calls again at the same instant while poll_timeout <= now):
             executable form of [timeouts_settle_bounded];
       (ii)  a drained connection (ZOMBIE record) shows no transmit / event / endpoint event;
+      (iv)  right after a handle_timeout(now) call (first state probe of the connection at the same
+            instant) no timer other than LossDetection and PushNewCid is armed at an instant before
+            [now], and the KeepAlive timer (armed at now + whole microseconds) is unset or strictly
+            after [now] — the strict handler contract [contract] of Model/TimerTable.v,
+            by inspection true of every handler except the PTO branch of LossDetection (probe
+            timers are truncated to microseconds, hence [<] for the ns-valued ones);
       (iii) no PANIC record (handled by [run_from]), the drive loop settles (no ANOMALY 2), the run
             does not exhaust the step budget (END reason 3). *)
 From Coq Require Import ZArith List Bool.
@@ -38,18 +44,43 @@ Fixpoint rec_eqb (a b : list Z) : bool :=
   end.
 
 (** ---- per-run rules ------------------------------------------------------------------ *)
-Record st := { chain : list (key * (Z * Z)) }.
-Definition st0 : st := {| chain := [] |}.
+Record st := { chain : list (key * (Z * Z)); pend : list (key * Z) }.
+Definition st0 : st := {| chain := []; pend := [] |}.
+
+(** timer [j] (0..8, probe field 18 + j) after a handle_timeout call at [t] *)
+Definition timer_ok (t : Z) (r : list Z) (j : nat) : bool :=
+  let v := pf r (18 + j) in
+  (v =? -1) ||
+  match j with
+  | 0%nat => true                                  (* LossDetection: PTO back-off, rule (i) *)
+  | 7%nat => true                                  (* PushNewCid: re-armed by the endpoint's NewIdentifiers
+                                                      answer, which the simulator delivers before the probe *)
+  | 5%nat => t <? v                                (* KeepAlive *)
+  | _ => t <=? v
+  end.
+Definition timers_ok (t : Z) (r : list Z) : bool :=
+  forallb (timer_ok t r) (seq 0 9).
 
 Definition step (s : st) (r : list Z) : option st :=
   if tag r =? 99 then Some st0
-  else if (tag r =? 7) && (fld r 4 =? 1) then
-    let n := match aget (chain s) (rkey r) with
-             | Some (t, n) => if t =? rtime r then n + 1 else 1
-             | None => 1
-             end in
-    if SETTLE_MAX <? n then None
-    else Some {| chain := aset (chain s) (rkey r) (rtime r, n) |}
+  else if tag r =? 7 then
+    let s1 := {| chain := chain s; pend := aset (pend s) (rkey r) (rtime r) |} in
+    if fld r 4 =? 1 then
+      let n := match aget (chain s) (rkey r) with
+               | Some (t, n) => if t =? rtime r then n + 1 else 1
+               | None => 1
+               end in
+      if SETTLE_MAX <? n then None
+      else Some {| chain := aset (chain s) (rkey r) (rtime r, n); pend := pend s1 |}
+    else Some s1
+  else if tag r =? 8 then
+    match aget (pend s) (rkey r) with
+    | Some t =>
+        if t =? -1 then Some s
+        else if (rtime r =? t) && negb (timers_ok t r) then None
+        else Some {| chain := chain s; pend := aset (pend s) (rkey r) (-1) |}
+    | None => Some s
+    end
   else if tag r =? 12 then
     if (fld r 4 =? 0) && (fld r 5 =? 0) && (fld r 7 =? 0) then Some s else None
   else if (tag r =? 11) && (fld r 4 =? 2) then None
